@@ -74,6 +74,16 @@ Theorem C03_preprocessor_regexes_pinned : gen_pp_regex_violations = 0 /\ Nat.leb
 Proof. exact pp_regex_generated. Qed.
 Print Assumptions C03_preprocessor_regexes_pinned.
 
+(* GENERATED from /repo on every run (vt/gen/c03_static.py analyse_regexes): every OTHER regular expression the expansion path applies to
+   author-controlled text - magics.if_error_rx (the #iferror test on its first argument), the #time format splitter and year test,
+   the #expr tokenizer, the template scanner's split pattern, the parser's #if/#switch name matchers - is one of the seven reviewed
+   patterns (file + sha256 + flags; patterns built at run time only by the pinned statement joining re.escape()d aliases), re is
+   only used as re.<function>(<static pattern>), and none contains an unbounded repetition nested in an unbounded repetition over
+   overlapping characters (the shape `(?:[^Q\s<>]STAR\s+)STAR?error`, Q the double quote, splits a run of N blanks inside a class attribute in 2^(N-1) ways). *)
+Theorem C03_expansion_regexes_pinned : gen_regex_violations = 0 /\ Nat.leb 7 gen_regex_patterns = true.
+Proof. exact regexes_generated. Qed.
+Print Assumptions C03_expansion_regexes_pinned.
+
 (* GENERATED (analyse_arg_reads): along every control path of every magic of magics.py (decorator wrappers included) each
    positional argument args[i] is read at most once, and never through a run-time index (allow-list: the open #ifexist
    defect).  ArgumentList.get(int) expands the argument's node on every read and caches nothing. *)
